@@ -27,12 +27,14 @@
    hedge|term, whichever of the two checks Model/Antecedent.v currently models (Proofs/RejectProofs.antecedent_load_agrees). *)
 From Coq Require Import ZArith NArith Bool List String Ascii.
 From VF Require Import Num GenNorm GenHedge GenTerm GenOpTable Core ShuntingYard Antecedent Consequent.
+From VF Require GenSwitches.
 Import ListNotations.
 Local Open Scope string_scope.
 Local Open Scope list_scope.
 
 (* ---- which final-state check the CURRENT code has: the repaired one (F6 was fixed in /repo). *)
-Definition code_has_F6 : bool := false.
+(* read off the AST of Antecedent.load on every run (Gen/GenSwitches.v) *)
+Definition code_has_F6 : bool := GenSwitches.antecedent_final_check_on_stack.
 
 (* ---- keywords of rule.py (translated table Gen/GenOpTable.rule_keywords) *)
 Definition KW_IF : string := keyword "IF".
